@@ -1,35 +1,139 @@
-"""Process pool that survives a worker crash (a mutated kernel may segfault): a crashed job is an
-observed outcome, never a hang of the check."""
+"""Process pool that survives a crashing or hanging worker (a mutated kernel may segfault or loop
+for ever): such a job is an observed outcome - {"crashed": True, "reason": ...} - never a hang of
+the check.  Each worker is a forked process fed one job at a time; the parent kills a worker that
+exceeds the per-job time limit and replaces a worker that died."""
 from __future__ import annotations
 
-import concurrent.futures as cf
 import multiprocessing as mp
+import multiprocessing.connection as mpc
+import os
+import signal
+import time
 
 
-def robust_map(fn, jobs, procs=16, job_timeout=900):
-    """Returns a list aligned with jobs; a job whose process died (or timed out) yields
-    {"crashed": True, "reason": ...}."""
-    results = [None] * len(jobs)
-    pending = list(range(len(jobs)))
-    ctx = mp.get_context("fork")
-    # first pass: everything in one pool
-    try:
-        with cf.ProcessPoolExecutor(max_workers=procs, mp_context=ctx) as ex:
-            futs = {ex.submit(fn, jobs[i]): i for i in pending}
-            for f in cf.as_completed(futs, timeout=job_timeout * 4):
-                i = futs[f]
-                results[i] = f.result()
-    except (cf.process.BrokenProcessPool, cf.TimeoutError, Exception):
-        pass
-    # second pass: the jobs that did not finish, one process each, to find the culprit
-    for i in [k for k in range(len(jobs)) if results[k] is None]:
+def _worker(fn, jobs, conn):
+    while True:
         try:
-            with cf.ProcessPoolExecutor(max_workers=1, mp_context=ctx) as ex:
-                results[i] = ex.submit(fn, jobs[i]).result(timeout=job_timeout)
-        except cf.process.BrokenProcessPool:
-            results[i] = {"crashed": True, "reason": "the worker process died (signal) while running this case"}
-        except cf.TimeoutError:
-            results[i] = {"crashed": True, "reason": f"no result within {job_timeout} s (hang)"}
-        except Exception as e:  # noqa: BLE001
-            results[i] = {"crashed": True, "reason": f"{type(e).__name__}: {e}"}
+            i = conn.recv()
+        except EOFError:
+            break
+        if i is None:
+            break
+        try:
+            r = fn(jobs[i])
+        except BaseException as e:  # noqa: BLE001
+            r = {"crashed": True, "reason": f"{type(e).__name__}: {e}"[:300]}
+        try:
+            conn.send((i, r))
+        except Exception as e:  # noqa: BLE001 - unpicklable result
+            conn.send((i, {"crashed": True, "reason": f"result not transferable: {type(e).__name__}: {e}"[:300]}))
+    os._exit(0)
+
+
+def robust_map(fn, jobs, procs=16, job_timeout=300, max_hangs=3):
+    """Returns a list aligned with jobs.  After max_hangs jobs had to be killed for exceeding the time limit the
+    remaining jobs are not started (they are reported as skipped): a change that makes every kernel loop for ever
+    must not turn the check into hours of waiting."""
+    jobs = list(jobs)
+    n = len(jobs)
+    results = [None] * n
+    done = [False] * n
+    ctx = mp.get_context("fork")
+    todo = list(range(n))[::-1]
+    workers = []
+
+    def spawn():
+        parent, child = ctx.Pipe()
+        p = ctx.Process(target=_worker, args=(fn, jobs, child), daemon=True)
+        p.start()
+        child.close()
+        w = dict(proc=p, conn=parent, job=None, t0=0.0)
+        workers.append(w)
+        return w
+
+    def give(w):
+        if todo:
+            w["job"] = todo.pop()
+            w["t0"] = time.time()
+            try:
+                w["conn"].send(w["job"])
+            except Exception:  # noqa: BLE001 - the worker is already gone
+                pass
+        else:
+            w["job"] = None
+            try:
+                w["conn"].send(None)
+            except Exception:  # noqa: BLE001
+                pass
+
+    def retire(w, reason):
+        if w["job"] is not None and not done[w["job"]]:
+            results[w["job"]] = {"crashed": True, "reason": reason}
+            done[w["job"]] = True
+        try:
+            os.kill(w["proc"].pid, signal.SIGKILL)
+        except Exception:  # noqa: BLE001
+            pass
+        w["proc"].join(5)
+        try:
+            w["conn"].close()
+        except Exception:  # noqa: BLE001
+            pass
+        workers.remove(w)
+
+    hangs = 0
+    for _ in range(min(procs, n)):
+        give(spawn())
+    while not all(done):
+        if hangs >= max_hangs:
+            for w in list(workers):
+                retire(w, "not completed: the run was stopped after repeated hangs")
+            for i in todo:
+                results[i] = {"crashed": True, "skipped": True, "reason": "not run: the run was stopped after repeated hangs"}
+                done[i] = True
+            todo.clear()
+            break
+        busy = [w for w in workers if w["job"] is not None]
+        if not busy:
+            if todo:
+                give(spawn())
+                continue
+            break
+        ready = mpc.wait([w["conn"] for w in busy], timeout=1.0)
+        for w in list(busy):
+            if w["conn"] in ready:
+                try:
+                    i, r = w["conn"].recv()
+                except (EOFError, OSError):
+                    code = w["proc"].exitcode
+                    retire(w, f"the worker process died (exit code {code}) while running this case")
+                    if todo:
+                        give(spawn())
+                    continue
+                results[i] = r
+                done[i] = True
+                give(w)
+            elif time.time() - w["t0"] > job_timeout:
+                retire(w, f"no result within {job_timeout} s (hang): the process was killed")
+                hangs += 1
+                if todo:
+                    give(spawn())
+            elif not w["proc"].is_alive():
+                retire(w, f"the worker process died (exit code {w['proc'].exitcode}) while running this case")
+                if todo:
+                    give(spawn())
+    for w in list(workers):
+        try:
+            w["conn"].send(None)
+        except Exception:  # noqa: BLE001
+            pass
+        w["proc"].join(2)
+        if w["proc"].is_alive():
+            try:
+                os.kill(w["proc"].pid, signal.SIGKILL)
+            except Exception:  # noqa: BLE001
+                pass
+    for i in range(n):
+        if results[i] is None and not done[i]:
+            results[i] = {"crashed": True, "reason": "no result"}
     return results
